@@ -1,6 +1,8 @@
 import OrsoVerif.Model.Encodings
 import OrsoVerif.Lemmas.Encodings
 import OrsoVerif.Lemmas.EncodingsGen
+import OrsoVerif.Lemmas.EncodingsUnique
+import OrsoVerif.Lemmas.EncodingsDType
 /-!
 # C09 — Compressed column encodings are lossless
 
@@ -379,6 +381,232 @@ theorem source_map_commutes (f : α → β) (vs : List α) (ls cs : List Nat) (n
   · rw [gen_const_materialize_refines, gen_const_materialize_refines]
     exact map_commutes_constant f ⟨vs, n⟩
 
+/-! ## The shared constructor (`FlatColumn.__init__`): keywords against the parameters of a type name
+
+Every column class is built by `FlatColumn.__init__`.  When the type is given by *name*
+(`'VARCHAR[20]'`, `'BLOB[8]'`, `'DECIMAL(10,2)'`, `'ARRAY<INTEGER>'`) the parameters written in the name
+are copied into `element_type`, `precision`, `scale`, `length` -- each only `if self.<attr> is None`.
+`ConstantColumn` / `FunctionColumn` reuse `length` as the number of rows, so this guard is what keeps the
+declared width of `'VARCHAR[20]'` out of the row count.  `Gen.Encodings.ctorResolve` is that block of
+four statements translated from the working tree; `constLengthDefault` / `functionLengthDefault` are the
+field defaults `length: int = 1` of the two classes. -/
+
+section Ctor
+variable {ET : Type}
+
+/-- What the translated block does to `length` (the only one of the four attributes an encoding reads): it
+keeps the keyword and takes the width written in the type name only when no keyword was given -- whatever
+happens to `element_type`, `precision` and `scale`. -/
+theorem gen_ctor_length (et det : Option ET) (p s n dp ds dn : Option Nat) :
+    (Gen.Encodings.ctorResolve et p s n det dp ds dn).map (·.2.2.2) = some (n.or dn) := by
+  cases n <;> simp [Gen.Encodings.ctorResolve]
+
+/-- **The `length` keyword is never overwritten by the type name**, whatever the name declares. -/
+theorem gen_ctor_keeps_length (n : Nat) (et det : Option ET) (p s dp ds dn : Option Nat) :
+    (Gen.Encodings.ctorResolve et p s (some n) det dp ds dn).map (·.2.2.2) = some (some n) := by
+  rw [gen_ctor_length]; rfl
+
+/-- **The row count of a constant / function column never comes from the type name**: with the keyword
+it is the keyword, without it the class's own default (`length: int = 1`, which is not `None`) -- for
+every declared width `dn`. -/
+theorem gen_ctor_row_count (kw : Option Nat) (et det : Option ET) (p s dp ds dn : Option Nat) :
+    (Gen.Encodings.ctorResolve et p s (kw.or Gen.Encodings.constLengthDefault) det dp ds dn).map (·.2.2.2)
+      = some (some (kw.getD 1)) ∧
+    (Gen.Encodings.ctorResolve et p s (kw.or Gen.Encodings.functionLengthDefault) det dp ds dn).map (·.2.2.2)
+      = some (some (kw.getD 1)) := by
+  rw [gen_ctor_length, gen_ctor_length]
+  cases kw <;> simp [Gen.Encodings.constLengthDefault, Gen.Encodings.functionLengthDefault]
+
+/-- **Constant and function columns, declared by any type name, on the translated code**: the shared
+constructor (keyword `length = n`, any parameters parsed from the name, any other keywords) followed by
+the class's own `__init__` / `materialize` expands to `n` copies -- same length, whatever width the type
+name declares. -/
+theorem source_constant_function_expand_declared {γ : Type} (v : α) (n : Nat) (binding : γ → α) (cfg : γ)
+    (et det : Option ET) (p s dp ds dn : Option Nat) :
+    ((Gen.Encodings.ctorResolve et p s (some n) det dp ds dn).bind fun r => r.2.2.2.bind fun len =>
+        (Gen.Encodings.constInit v).bind fun vs => Gen.Encodings.constMaterialize len vs)
+      = some (List.replicate n v) ∧
+    ((Gen.Encodings.ctorResolve et p s (some n) det dp ds dn).bind fun r => r.2.2.2.bind fun len =>
+        Gen.Encodings.functionMaterialize binding cfg len)
+      = some (List.replicate n (binding cfg)) := by
+  have h := source_constant_function_expand v n binding cfg
+  have hl := gen_ctor_keeps_length n et det p s dp ds dn
+  obtain ⟨r, hr, hr2⟩ := Option.map_eq_some_iff.mp hl
+  rw [hr]
+  simp only [Option.bind_some, hr2]
+  exact h
+
+/-- the translated block runs: `ConstantColumn(type='VARCHAR[20]', length=5)` keeps 5 rows; a flat
+column without the keyword takes the declared width -/
+example : (Gen.Encodings.ctorResolve (none : Option Unit) none none (some 5) none none none (some 20)).map (·.2.2.2)
+      = some (some 5) ∧
+    (Gen.Encodings.ctorResolve (none : Option Unit) none none none none none none (some 20)).map (·.2.2.2)
+      = some (some 20) := by decide
+
+end Ctor
+
+/-! ## `numpy.unique` the way numpy computes it
+
+`DictionaryColumn.__init__` is one call of `numpy.unique(values, return_inverse=True)`; the model's
+`Np.uniqueValues` is its specification (the distinct values, sorted).  numpy itself sorts the array and
+then keeps every element that differs from its predecessor (`Np.uniqueSortMerge`).  The theorems below
+prove "dictionary entries are unique" and "exactly the values that occur" of that algorithm, identify it
+with the specification whenever the order is total and antisymmetric, and prove the counterexample for
+an order that is not (Python's `<` on an object array holding a NaN: open finding C09-K02). -/
+
+/-- **Dictionary entries are unique -- of numpy's sort-then-merge**, for every total antisymmetric order
+and `ne` = inequality. -/
+theorem numpy_unique_nodup (le ne : α → α → Bool) (hne : ∀ a b, ne a b = false ↔ a = b)
+    (trans : ∀ a b c, le a b → le b c → le a c) (total : ∀ a b, le a b || le b a)
+    (antisymm : ∀ a b, le a b = true → le b a = true → a = b) (xs : List α) :
+    (Np.uniqueSortMerge le ne xs).Nodup := by
+  unfold Np.uniqueSortMerge
+  have hs := List.pairwise_mergeSort trans total xs
+  cases hm : xs.mergeSort le with
+  | nil => simp [Np.keepFirsts]
+  | cons x t =>
+    rw [hm] at hs
+    obtain ⟨hnd, hx⟩ := keepFirstsFrom_nodup le ne hne antisymm x t hs
+    exact List.nodup_cons.mpr ⟨fun h => hx x h rfl, hnd⟩
+
+/-- **The dictionary holds exactly the values that occur -- of numpy's sort-then-merge** (only soundness
+of `!=` is needed: what is dropped equals its predecessor). -/
+theorem numpy_unique_complete (le ne : α → α → Bool) (hsound : ∀ a b, ne a b = false → a = b)
+    (xs : List α) (v : α) : v ∈ Np.uniqueSortMerge le ne xs ↔ v ∈ xs := by
+  unfold Np.uniqueSortMerge
+  constructor
+  · intro h
+    exact List.mem_mergeSort.mp ((keepFirsts_sublist ne _).subset h)
+  · intro h
+    have h' : v ∈ xs.mergeSort le := List.mem_mergeSort.mpr h
+    cases hm : xs.mergeSort le with
+    | nil => rw [hm] at h'; cases h'
+    | cons x t =>
+      rw [hm] at h'
+      simp only [Np.keepFirsts, List.mem_cons]
+      rcases List.mem_cons.mp h' with rfl | ht
+      · exact Or.inl rfl
+      · exact keepFirstsFrom_mem ne hsound x t v ht
+
+/-- **numpy's algorithm computes the model's dictionary**: for a total antisymmetric order, sort-then-merge
+is the sorted list of distinct values -- `Np.uniqueValues`, the first component of the translated
+`DictionaryColumn.__init__`, the dictionary `dict_values_nodup` / `dict_values_sorted` are about. -/
+theorem numpy_unique_is_model [DecidableEq α] (le ne : α → α → Bool) (hne : ∀ a b, ne a b = false ↔ a = b)
+    (trans : ∀ a b c, le a b → le b c → le a c) (total : ∀ a b, le a b || le b a)
+    (antisymm : ∀ a b, le a b = true → le b a = true → a = b) (xs : List α) :
+    Np.uniqueSortMerge le ne xs = (dictEncode le xs).values ∧
+    (Gen.Encodings.dictInit le xs).map (·.1) = some (Np.uniqueSortMerge le ne xs) := by
+  have key : Np.uniqueSortMerge le ne xs = (dictEncode le xs).values := by
+    apply List.Perm.eq_of_pairwise (le := fun a b => le a b = true)
+    · intro a b _ _ hab hba; exact antisymm a b hab hba
+    · exact List.Pairwise.sublist (keepFirsts_sublist ne _) (List.pairwise_mergeSort trans total xs)
+    · exact dict_values_sorted le trans total xs
+    · refine (List.perm_ext_iff_of_nodup (numpy_unique_nodup le ne hne trans total antisymm xs)
+        (dict_values_nodup le xs)).mpr fun a => ?_
+      rw [numpy_unique_complete le ne (fun a b h => (hne a b).mp h) xs a, dict_values_complete]
+  exact ⟨key, by rw [gen_dict_init_refines, key]; rfl⟩
+
+/-- **Without a total order the merge step keeps duplicates** (the open finding C09-K02 on the model):
+when the sort leaves an unordered value `n` between two occurrences of `a` -- as Python's `<` does with a
+NaN in an object array, where every comparison with it is false -- both occurrences are kept. -/
+theorem numpy_unique_unordered_keeps_duplicates (ne : α → α → Bool) (hne : ∀ a b, ne a b = false ↔ a = b)
+    (a n : α) (h : a ≠ n) :
+    Np.keepFirsts ne [a, n, a] = [a, n, a] ∧ ¬ (Np.keepFirsts ne [a, n, a]).Nodup := by
+  have h1 : ne n a = true := by
+    cases e : ne n a
+    · exact absurd ((hne n a).mp e).symm h
+    · rfl
+  have h2 : ne a n = true := by
+    cases e : ne a n
+    · exact absurd ((hne a n).mp e) h
+    · rfl
+  have hk : Np.keepFirsts ne [a, n, a] = [a, n, a] := by simp [Np.keepFirsts, Np.keepFirstsFrom, h1, h2]
+  exact ⟨hk, by rw [hk]; simp⟩
+
+/-- the merge step runs: sorted `[1, 1, 2, 3, 3]` keeps `[1, 2, 3]` -/
+example : Np.keepFirsts (fun a b : Nat => a != b) [1, 1, 2, 3, 3] = [1, 2, 3] := by decide
+
+/-! ## The dtype `numpy.array(list)` infers: RLE, dictionary, constant and function columns never cast
+
+These four encodings hold their values in the array `numpy.array(<list>)` builds and expand by
+repeating / gathering its elements; the only place a value could be truncated or narrowed is that
+array's dtype (`arrayDType`: one numeric kind as it is, text at the width of the widest element,
+anything with a null as objects). -/
+
+/-- **The inferred dtype holds every element natively** -- the numeric kind of the elements itself (never
+a smaller one), text at least as wide as every element, objects when there is a null. -/
+theorem array_dtype_holds (xs : List PyVal) (t : DType) (h : arrayDType xs = some t) :
+    ∀ x ∈ xs, holds t x = true := by
+  cases xs with
+  | nil => intro x hx; cases hx
+  | cons x0 rest =>
+    simp only [arrayDType, Option.bind_eq_bind] at h
+    cases h0 : scalarDType x0 with
+    | none => simp [h0] at h
+    | some t0 =>
+      simp only [h0, Option.bind_some] at h
+      obtain ⟨i1, i2⟩ := foldlM_arrayStep_holds rest t0 t h
+      intro x hx
+      rcases List.mem_cons.mp hx with rfl | hx
+      · exact i2 x (by simp [Scalar, h0]) (scalarDType_holds x t0 h0)
+      · exact i1 x hx
+
+/-- **Values neither truncated nor narrowed (RLE, dictionary, constant, function)**: storing the
+elements of a sequence into the array numpy builds for it returns every element itself -- no width
+cut, no change of numeric type, for every sequence of the property's kinds. -/
+theorem array_dtype_lossless (i2f : Int → UInt64) (xs : List PyVal) (t : DType)
+    (h : arrayDType xs = some t) : xs.mapM (castInto i2f t) = some xs := by
+  have hh := array_dtype_holds xs t h
+  have : xs.mapM (castInto i2f t) = some (xs.map id) :=
+    mapM_some_of_forall xs fun x hx => castInto_of_holds i2f t x (hh x hx)
+  simpa using this
+
+example : arrayDType [.str "a", .str "abcd", .str ""] = some (.str 4) ∧
+    arrayDType [.int 1, .none] = some .object ∧ arrayDType [.int 1, .float 0] = none := by decide
+
+/-! ## Text in a fixed-width numpy array (open finding C09-K03)
+
+Every encoding holds text in a `<U`n array.  The value-level model takes `numpy.array(list)` to hold
+its elements exactly; for text that is true exactly of strings that do not end in a NUL character. -/
+
+/-- Text that does not end in NUL is read back from a fixed-width text array as it was stored. -/
+theorem np_text_exact (cs : List Char) (h : cs.getLast? ≠ some '\x00') : Np.textRead cs = cs := by
+  obtain ⟨r, rfl⟩ : ∃ r, cs = r.reverse := ⟨cs.reverse, by simp⟩
+  unfold Np.textRead
+  rw [List.reverse_reverse]
+  cases r with
+  | nil => rfl
+  | cons x t =>
+    have hx : (x == '\x00') = false := by
+      cases e : (x == '\x00')
+      · rfl
+      · exfalso; apply h; simp at e; simp [e]
+    simp [List.dropWhile, hx]
+
+/-- **The counterexample** (C09-K03): text that ends in NUL is never read back as stored -- the full
+statement "values are not truncated" is false of numpy's text dtype, whatever the encoding. -/
+theorem np_text_trailing_nul_lossy (cs : List Char) : Np.textRead (cs ++ ['\x00']) ≠ cs ++ ['\x00'] := by
+  intro h
+  have hl := congrArg List.length h
+  unfold Np.textRead at hl
+  simp only [List.reverse_append, List.reverse_cons, List.reverse_nil, List.nil_append,
+    List.singleton_append, List.dropWhile, beq_self_eq_true, List.length_reverse,
+    List.length_append, List.length_cons, List.length_nil] at hl
+  have := (List.dropWhile_sublist (l := cs.reverse) (fun c => c == '\x00')).length_le
+  simp only [List.length_reverse] at this
+  omega
+
+/-- The model's element kinds exclude exactly that text: every string `scalarDType` accepts is read back
+from a text array as stored (so `castInto`'s "text is returned as it is" is numpy's behaviour on the
+model's inputs). -/
+theorem scalar_text_read_exact (s : String) (t : DType) (h : scalarDType (.str s) = some t) :
+    Np.textRead s.toList = s.toList := by
+  apply np_text_exact
+  intro hn
+  simp [scalarDType, endsNul, hn] at h
+
+example : Np.textRead "a\x00".toList = "a".toList ∧ Np.textRead "a\x00b".toList = "a\x00b".toList := by decide
+
 /-! ## The result dtype of the repaired `SparseColumn.materialize` -/
 
 /-- The result dtype is an upper bound of the stored values' dtype and of the default's dtype. -/
@@ -631,6 +859,7 @@ example : sparseDecode 0 (sparseEncode (fun a b : Nat => a != b) 0 [7, 0, 9]) = 
 example : sparseDecode 0 ((sparseEncode (fun a b : Nat => a != b) 0 [7, 0, 9]).mapValues (· * 2))
     = some ([7, 0, 9].map (· * 2)) := by decide
 /-- the hypotheses of `sparse_dtype_lossless` are satisfiable: floats with an integer default -/
+example : scalarDType (.str "a\x00") = none ∧ scalarDType (.str "a\x00b") = some (.str 3) := by decide
 example : scalarDType (.int 0) = some .int ∧ holds .int (.int 0) = true ∧
     holds .float (.float 0x3FF8000000000000) = true ∧ DType.join .float .int = .float := by decide
 
